@@ -121,7 +121,7 @@ impl Stream {
         {
             self.topics_ids.remove(&old_topic_name.clone());
             self.topics_ids.insert(name.to_owned(), topic_id);
-            let topic = self.get_topic_mut(id).with_error_context(|error| {
+            let topic = self.get_topic_by_id_mut(topic_id).with_error_context(|error| {
                 format!("{COMPONENT} (error: {error}) - failed to get mutable reference to topic with id {id}")
             })?;
 
